@@ -80,6 +80,44 @@ def impl_roundtrip(ts, sep, explicit, path_mode, scratch):
     return text, res
 
 
+def judge(ts, sep, explicit, path_mode, case, out, scratch):
+    """the property on the real code for one bundle; -> (text, read-back result) when it holds, else None"""
+    before = [snapshot(t) for t in ts]
+    try:
+        text, res = impl_roundtrip(ts, sep, explicit, path_mode, scratch)
+    except Exception as e:  # noqa: BLE001 — write_csv (or the snapshot) raised on a well-formed bundle
+        out.evaluations += 1
+        out.fail("write_csv raised on a well-formed bundle", case, type(e).__name__ + ": " + str(e)[:200], None,
+                 key="write_raised:" + type(e).__name__)
+        return None
+    after = [snapshot(t) for t in ts]
+    out.evaluations += 1
+    if any(t.df.shape[1] for t in ts):
+        out.nontrivial.add(hash(text))
+    if len(out.samples) < 2:
+        out.samples.append(dict(case, text=text))
+    out.count("sep:" + repr(sep))
+    out.count("mode:" + ("explicit" if explicit else "default") + "/" + ("path" if path_mode else "stream"))
+    for t in ts:
+        out.count("orientation:" + ("transposed" if t.metadata.transposed else "rowwise"))
+        out.count(f"shape:{min(t.df.shape[1], 3)}c{min(t.df.shape[0], 3)}r")
+    if before != after:
+        out.fail("write_csv / read_csv modified a written table", case, after, before, key="modified")
+        return None
+    got = [b["val"]["table"] for b in res["blocks"] if b["ty"] == "TABLE"]
+    want = [rc.canon_table(t) for t in ts]
+    if res["ending"] != "exhausted" or [b["ty"] for b in res["blocks"]] != ["TABLE"] * len(ts):
+        out.fail("reading back the written bundle did not yield exactly its tables", dict(case, text=text),
+                 {"ending": res["ending"], "types": [b["ty"] for b in res["blocks"]]}, None, key="blocks")
+        return None
+    if got != want:
+        j = next(k for k, (a, b) in enumerate(zip(got, want)) if a != b) if len(got) == len(want) else -1
+        out.fail("a table read back differs from the table written", dict(case, text=text, table=j),
+                 got[j] if j >= 0 else got, want[j] if j >= 0 else want, key="roundtrip")
+        return None
+    return text, res
+
+
 LONG_ROWS = [255, 256, 257, 1019, 1020, 1021, 1022, 1023, 1024, 1025, 1026, 2047, 2048, 2049, 4095, 4096, 4097, 8191,
              8193, 10000]
 
@@ -120,43 +158,12 @@ def run(tier, seed, model_ok, translator, search=False):
             out.count("long-tables")
             k += 1
         for (i, sep, ts, explicit, path_mode) in cases:
-            before = [snapshot(t) for t in ts]
-            try:
-                text, res = impl_roundtrip(ts, sep, explicit, path_mode, scratch)
-            except Exception as e:  # noqa: BLE001 — write_csv (or the snapshot) raised on a well-formed bundle
-                out.evaluations += 1
-                out.fail("write_csv raised on a well-formed bundle", {"seed": seed, "index": i, "sep": sep,
-                         "explicit_sep": explicit, "path": path_mode}, type(e).__name__ + ": " + str(e)[:200], None,
-                         key="write_raised:" + type(e).__name__)
-                continue
-            after = [snapshot(t) for t in ts]
             case = {"seed": seed, "index": i, "sep": sep, "explicit_sep": explicit, "path": path_mode,
                     "tables": [wc.table_val(t) for t in ts]}
-            out.evaluations += 1
-            if any(t.df.shape[1] for t in ts):
-                out.nontrivial.add(hash(text))
-            if len(out.samples) < 2:
-                out.samples.append(dict(case, text=text))
-            out.count("sep:" + repr(sep))
-            out.count("mode:" + ("explicit" if explicit else "default") + "/" + ("path" if path_mode else "stream"))
-            for t in ts:
-                out.count("orientation:" + ("transposed" if t.metadata.transposed else "rowwise"))
-                out.count(f"shape:{min(t.df.shape[1], 3)}c{min(t.df.shape[0], 3)}r")
-            # ---- oracle: the property on the real code
-            if before != after:
-                out.fail("write_csv / read_csv modified a written table", case, after, before, key="modified")
+            verdict = judge(ts, sep, explicit, path_mode, case, out, scratch)
+            if verdict is None:
                 continue
-            got = [b["val"]["table"] for b in res["blocks"] if b["ty"] == "TABLE"]
-            want = [rc.canon_table(t) for t in ts]
-            if res["ending"] != "exhausted" or [b["ty"] for b in res["blocks"]] != ["TABLE"] * len(ts):
-                out.fail("reading back the written bundle did not yield exactly its tables", dict(case, text=text),
-                         {"ending": res["ending"], "types": [b["ty"] for b in res["blocks"]]}, None, key="blocks")
-                continue
-            if got != want:
-                j = next(k for k, (a, b) in enumerate(zip(got, want)) if a != b) if len(got) == len(want) else -1
-                out.fail("a table read back differs from the table written", dict(case, text=text, table=j),
-                         got[j] if j >= 0 else got, want[j] if j >= 0 else want, key="roundtrip")
-                continue
+            text, res = verdict
             # ---- correspondence with the model
             if model_ok:
                 tv = case["tables"]
@@ -252,10 +259,18 @@ NEGATIVE = [
 
 def replay(rep):
     inp = rep.get("input") or {}
-    if "index" not in inp:
+    if "tables" not in inp:
         return False, "replay file has no input (no-failing-input-found): " + str(rep.get("broken"))[:300]
-    o = run("quick", int(rep.get("seed", 0)), model_ok=False, translator=None)
-    hit = [f for f in o.failures if f["input"].get("index") == inp["index"]]
-    if hit:
-        return False, hit[0]["what"]
+    scratch = tempfile.mkdtemp(prefix="pdt-c01-")
+    try:
+        # the bundle is rebuilt from the recorded table values; all four ways of writing and reading it are tried
+        for explicit in (bool(inp.get("explicit_sep")), not inp.get("explicit_sep")):
+            for path_mode in (bool(inp.get("path")), not inp.get("path")):
+                o = Outcome()
+                ts = [wc.table_from_val(tv) for tv in inp["tables"]]
+                judge(ts, inp.get("sep", ";"), explicit, path_mode, dict(inp), o, scratch)
+                if o.failures:
+                    return False, o.failures[0]["what"]
+    finally:
+        shutil.rmtree(scratch, ignore_errors=True)
     return True, "property holds on this input"
